@@ -255,12 +255,13 @@ def check_buffer(ctx, buf, size):
     if status == 'exception':
         ctx.fail('g2:exception:%s:%s' % (type(exc[0]).__name__, exc[2]), case, exc[1])
     # every yielded item (also those before an InvalidInstruction) lies inside the code and re-encodes to its bytes.
-    # When the caller declares fewer code units than the buffer holds, the statement does not say which of the two is
-    # "the code": the weaker reading (inside the buffer) is asserted.
+    # "The code" is the declared code size ("consumes exactly the declared code size"): when the caller declares fewer
+    # code units than the buffer holds, an item straddling the declared end is not inside the code.
     for (off, ln, name, raw) in got:
         ncls = name if name.endswith('-payload') else name_class(name).split(':')[0]
-        if off + ln > len(buf) or ln <= 0:
-            ctx.fail('g2:past-end:%s' % ncls, case, '%s at offset %d has get_length()=%d, the code has %d bytes' % (name, off, ln, len(buf)))
+        if off + ln > len(code) or ln <= 0:
+            ctx.fail('g2:past-end:%s:declared-%s' % (ncls, decl), case,
+                     '%s at offset %d has get_length()=%d, the declared code has %d bytes (buffer %d)' % (name, off, ln, len(code), len(buf)))
             break
         if not isinstance(raw, bytes):
             ctx.fail('g2:raw-exception:%s' % ncls, case, '%s at offset %d: get_raw() raised %r' % (name, off, raw))
@@ -292,6 +293,12 @@ SIZES16 = [0, 1, 2, 3, 4, 5, 7, 8, 0x7f, 0x80, 0xff, 0x100, 0x7fff, 0x8000, 0xff
 SIZES32 = SIZES16 + [0x10000, 0x7fffffff, 0x80000000, 0xfffffffe, 0xffffffff, 6, 9, 10]
 
 
+def pick(*alts):
+    """uniform choice between alternatives. (st.one_of flattens nested one_of strategies -- `ins` is a one_of over 224
+    opcodes -- so the payload alternatives would otherwise be drawn ~1% of the time.)"""
+    return st.integers(0, len(alts) - 1).flatmap(lambda i: alts[i])
+
+
 def tokens():
     """byte-string tokens: payload headers with huge/odd sizes, whole small payloads, valid instructions, noise"""
     packed_hdr = st.builds(lambda n, k: _u16(0x0100) + _u16(n) + _u32(k), st.sampled_from(SIZES16), st.integers(0, 0xffffffff))
@@ -300,8 +307,8 @@ def tokens():
                          st.one_of(st.sampled_from([0, 1, 2, 3, 4, 8, 0xffff]), st.integers(0, 0xffff)), st.sampled_from(SIZES32))
     ins = asm.any_instruction(wellformed=False).map(lambda i: ds.encode(i.op, **i.fields))
     pseudo = st.builds(lambda hi, lo: bytes([lo, hi]), st.integers(0, 255), st.sampled_from([0x00, 0xff, 0xfe, 0x3e, 0x73, 0xe3, 0xf9]))
-    return st.one_of(packed_hdr, sparse_hdr, fill_hdr, ins, pseudo, st.binary(min_size=1, max_size=9),
-                     st.sampled_from([b'\x00\x00', b'\x00\x00\x00\x00', b'\x0e\x00', b'\xff', b'\x00']))
+    return pick(packed_hdr, sparse_hdr, fill_hdr, ins, pseudo, st.binary(min_size=1, max_size=9),
+                st.sampled_from([b'\x00\x00', b'\x00\x00\x00\x00', b'\x0e\x00', b'\xff', b'\x00']))
 
 
 def mutate(code, ops):
@@ -335,8 +342,9 @@ def valid_items():
         lambda l: struct.pack('<HH', 0x0200, len(l)) + b''.join(struct.pack('<i', k) for k, _ in sorted(l)) +
         b''.join(struct.pack('<i', t) for _, t in sorted(l)))
     fill = st.tuples(st.sampled_from([1, 2, 4, 8]), st.integers(0, 12), st.binary(min_size=96, max_size=96)).map(
-        lambda t: struct.pack('<HHI', 0x0300, t[0], t[1]) + t[2][:t[0] * t[1]] + (b'\x00' if (t[0] * t[1]) % 2 else b''))
-    return st.one_of(ins, ins, ins, st.just(b'\x00\x00'), packed, sparse, fill)
+        lambda t: struct.pack('<HHI', 0x0300, t[0], t[1]) + t[2][:t[0] * t[1]] +
+        ((b'\x00' if t[2][-1] & 1 else t[2][-2:-1]) if (t[0] * t[1]) % 2 else b''))     # alignment byte: zero or arbitrary
+    return pick(ins, ins, ins, st.just(b'\x00\x00'), packed, sparse, fill)
 
 
 def g2_buffers():
